@@ -40,12 +40,15 @@ func c09Input(k int) []any {
 		// (the interpolated key and the literal "kx"): which one wins must
 		// not depend on iteration order
 		return []any{map[string]any{`$"k{a}"`: 1, "a": "x", "kx": c1, "$env:HOME": 2, "/h": c2}}
-	default:
+	case 7:
 		return []any{map[string]any{"a": "$required", "b": "$required", "c": c1}}
+	default:
+		// a $merge whose target lies inside its own host (was C09-K1)
+		return []any{map[string]any{"$merge": "c", "c": map[string]any{"c": map[string]any{"d": c1}, "e": c2}}}
 	}
 }
 
-const c09Inputs = 8
+const c09Inputs = 9
 
 func c09Eval(layers []any) ([]any, bool) {
 	cp := []any{}
